@@ -17,6 +17,7 @@ from .core import Undecided, EngineError, PathInfeasible
 from .interp import Interp, LoopCut
 from .objects import PyExc
 from .runtime import Runtime
+from .objects import PDict as PDictT
 
 VERIF = os.path.dirname(os.path.dirname(os.path.abspath(__file__)))
 
@@ -85,10 +86,31 @@ def run_vu(vu, prop, seed=0, open_findings=(), start=None, split_at=None):
                 vu.setup_once(rt, interp)
                 rt_box["setup_done"] = True
             vu.setup(rt, interp)
+            rt.global_writes = []
             try:
-                return vu.run(interp)
+                out = vu.run(interp)
             except LoopCut:
-                return "loop-cut"
+                out = "loop-cut"
+            if rt.global_writes:
+                # The call wrote module-level state (a module global, or state captured by an import-time closure).
+                # A single-call contract cannot see what that does to LATER calls, so the unit is executed a second
+                # time in the state the first call left behind, with fresh symbolic inputs: every obligation must
+                # hold again (a correctly keyed cache passes, state that leaks between calls does not).
+                res["notes"].append("module-level state written by the call (%s): unit re-run as a second call"
+                                    % ", ".join(sorted(set(rt.global_writes))))
+                interp2 = Interp(prog, ctx, rt)
+                vu.setup(rt, interp2)
+                try:
+                    vu.run(interp2)
+                except LoopCut:
+                    pass
+                finally:
+                    # later paths start from a clean import state again
+                    rt.module_cache.clear()
+                    rt.global_ids.clear()
+                    for c in rt.class_cache.values():
+                        c.attrs = {k: v for k, v in c.attrs.items() if not isinstance(v, (PDictT, list))}
+            return out
 
         paths, obs, leftover = core.explore(theory, run, stats, timeout_ms=vu.timeout_ms, seed=seed,
                                             open_findings=open_findings, max_paths=vu.max_paths,
